@@ -315,7 +315,17 @@ type EncOpts struct {
 
 func Encode(v *Value, o EncOpts) []byte {
 	var sb strings.Builder
+	if o.RandWS && o.R != nil {
+		// white space is insignificant before and after the top-level value too
+		if o.R.Intn(2) == 0 {
+			sb.WriteByte(" \n\t\r"[o.R.Intn(4)])
+		}
+		ws(&sb, o)
+	}
 	enc(&sb, v, o, 0)
+	if o.RandWS {
+		ws(&sb, o)
+	}
 	if o.Indent >= 0 {
 		sb.WriteByte('\n')
 	}
